@@ -28,7 +28,7 @@ Lemma join_nil_cons segs : segs <> [] -> join SL ([] :: segs) = slashed segs.
 Proof. intros H. destruct segs; [congruence|]. rewrite join_cons2, slashed_join by discriminate. reflexivity. Qed.
 
 Lemma ends_with_app_last (a : str) x : ends_with [SL] (a ++ [x]) = (SL =? x).
-Proof. unfold ends_with. rewrite rev_app_distr. cbn [rev app starts_with]. now rewrite andb_true_r. Qed.
+Proof. unfold ends_with. rewrite <- !rev_alt. rewrite rev_app_distr. cbn [rev app starts_with]. now rewrite andb_true_r. Qed.
 
 Lemma ends_with_plain acc seg : seg <> [] -> cfree SL seg -> ends_with [SL] (acc ++ seg) = false.
 Proof.
